@@ -321,7 +321,29 @@ func (g *e3gen) stream() []byte {
 		}
 	}
 	if mode == 2 {
-		switch g.pick(3) {
+		switch g.pick(4) {
+		case 3: // legal but padded (over-long yet valid) varints, payload exactly the maximum
+			g.desc = append(g.desc, "padded-varints")
+			pad := func(b []byte, v uint64) []byte {
+				for i := 0; i < 9; i++ {
+					b = append(b, byte(v)|0x80)
+					v >>= 7
+				}
+				return append(b, byte(v))
+			}
+			n := g.max - g.pick(2)
+			if n < 0 {
+				n = 0
+			}
+			if n > 5000 {
+				n = 5000
+			}
+			b = append(b, 2<<1|1)
+			b = pad(b, sid)
+			b = pad(b, mid)
+			b = pad(b, uint64(n))
+			b = append(b, make([]byte, n)...)
+			mid++
 		case 0: // declared length 2^62 then some bytes
 			g.desc = append(g.desc, "huge-length")
 			b = append(b, 0x05)
